@@ -10,6 +10,7 @@ are logged as sweeps and judged by SweepC15.tla / SweepC16.tla.
 from __future__ import annotations
 
 import functools
+import math
 import hashlib
 import json
 import warnings
@@ -82,7 +83,9 @@ def interpolators(pressure, cols: dict, rho: dict, kr_so, kr_cols: dict, so=None
 
 def frames(pressure, cols: dict, so, kr_so, kr_cols: dict, sw: float, as_frame: bool = True):
     """Tables in the form from_table takes (pseudopressure column is required by it but not used)."""
-    pvt = {"pressure": np.asarray(pressure, float), "pseudopressure": np.asarray(pressure, float) * 1.0,
+    pa = np.asarray(pressure)
+    pvt = {"pressure": pa if pa.dtype.kind == "i" else pa.astype(float),   # an integer column (0, 10, 20, ... as read_csv gives) stays one
+           "pseudopressure": np.asarray(pressure, float) * 1.0,
            "So": np.asarray(so, float)}
     pvt.update({k: np.asarray(v, float) for k, v in cols.items()})
     kr_so = np.asarray(kr_so, float)
@@ -97,13 +100,21 @@ class CodeError(Exception):
     """The code under test raised on an admissible input (an observation, not a harness failure)."""
 
 
+def reordered(rho: dict, k: int) -> dict:
+    """The same reference densities in another insertion order (a dictionary is keyed by name: sorted JSON gives g, o, w)."""
+    import itertools  # noqa: PLC0415
+
+    keys = list(itertools.permutations(sorted(rho)))[k % math.factorial(len(rho))]
+    return {name: rho[name] for name in keys}
+
+
 def from_table(pvt_props, kr_props, rho, phi, sw, p_i):
     from bluebonnet.flow.flowproperties import FlowPropertiesTwoPhase  # noqa: PLC0415
 
     with warnings.catch_warnings(), np.errstate(all="ignore"):
         warnings.simplefilter("ignore")
         try:
-            return FlowPropertiesTwoPhase.from_table(pvt_props, kr_props, dict(rho), phi, sw, p_i)
+            return FlowPropertiesTwoPhase.from_table(pvt_props, kr_props, reordered(rho, int(phi * 1e6 + p_i)), phi, sw, p_i)
         except Exception as e:  # noqa: BLE001
             raise CodeError(f"from_table(p_i={p_i}) raised {type(e).__name__}: {e}") from e
 
